@@ -241,16 +241,18 @@ theorem restOK_not_name {rest : List Tok} (h : RestOK rest) : nextIsName rest = 
     have := h t rfl
     cases t <;> simp_all [restOK, Tok.isName]
 
-theorem term_var (d : Nat) (pre : List Tok) (s : Wire.Str) (r : List Tok) (stk : List Entry) (a : Nat)
+theorem term_var (g : Bool) (d : Nat) (pre : List Tok) (s : Wire.Str) (r : List Tok) (stk : List Entry) (a : Nat)
     (hr : RestOK r) (hc : CtxOK pre)
     (hdecl : pre.head? = some Tok.lp → skipDeclGo (Tok.var s :: r) 0 = some 0) :
-    term d ⟨pre, Tok.var s :: r, stk, a⟩ = .ok ⟨Tok.var s :: pre, r, ⟨pre.length, .leaf s⟩ :: stk, a⟩ := by
+    term g d ⟨pre, Tok.var s :: r, stk, a⟩ = .ok ⟨Tok.var s :: pre, r, ⟨pre.length, .leaf s⟩ :: stk, a⟩ := by
   have hn := restOK_not_name hr
   unfold term
   simp only [hn, Bool.false_eq_true, if_false]
-  have hj : (if pre.head? = some Tok.lp then skipDeclGo (Tok.var s :: r) 0 else some 0) = some 0 := by
+  have hj : (if (decide (pre.head? = some Tok.lp) && !(g && true)) = true then skipDeclGo (Tok.var s :: r) 0 else some 0) = some 0 := by
     split
-    · rename_i h; exact hdecl h
+    · rename_i h
+      simp only [Bool.and_eq_true, decide_eq_true_eq] at h
+      exact hdecl h.1
     · rfl
   simp only [hj, St.adv, hn, Bool.false_eq_true, if_false, St.push, St.pos, Tok.str]
   have hx : parenParenBefore pre = false := by
@@ -261,15 +263,15 @@ theorem term_var (d : Nat) (pre : List Tok) (s : Wire.Str) (r : List Tok) (stk :
     · rfl
   simp only [hn, hx, Bool.and_false, Bool.false_and, Bool.false_eq_true, if_false, St.next]
 
-theorem term_num (d : Nat) (pre : List Tok) (s : Wire.Str) (r : List Tok) (stk : List Entry) (a : Nat)
+theorem term_num (g : Bool) (d : Nat) (pre : List Tok) (s : Wire.Str) (r : List Tok) (stk : List Entry) (a : Nat)
     (hr : RestOK r) :
-    term d ⟨pre, Tok.num s :: r, stk, a⟩ = .ok ⟨Tok.num s :: pre, r, ⟨pre.length, .leaf s⟩ :: stk, a⟩ := by
+    term g d ⟨pre, Tok.num s :: r, stk, a⟩ = .ok ⟨Tok.num s :: pre, r, ⟨pre.length, .leaf s⟩ :: stk, a⟩ := by
   have hn := restOK_not_name hr
   unfold term
   simp only [hn, Bool.false_eq_true, if_false, St.next, St.push, St.pos]
 
-theorem loop2_stop (M : Nat) (cpp : Bool) (inner : Nat → St → R) (d : Nat) (st : St) (hr : RestOK st.inp) :
-    loop2 M cpp inner d st = .ok st := by
+theorem loop2_stop (M : Nat) (cpp : Bool) (g : Bool) (inner : Nat → St → R) (d : Nat) (st : St) (hr : RestOK st.inp) :
+    loop2 M cpp g inner d st = .ok st := by
   rw [loop2.eq_1]
   cases hi : st.inp with
   | nil => rfl
@@ -289,8 +291,8 @@ theorem loop2_stop (M : Nat) (cpp : Bool) (inner : Nat → St → R) (d : Nat) (
     | lp => simp [restOK] at this
     | lb => simp [restOK] at this
 
-theorem p3loop_stop (M : Nat) (cpp : Bool) (inner : Nat → St → R) (d : Nat) (st : St) (hr : RestOK st.inp)
-    (he : EndsOp cpp st.pre) : p3 M cpp inner false d st = .ok st := by
+theorem p3loop_stop (M : Nat) (cpp : Bool) (g : Bool) (inner : Nat → St → R) (d : Nat) (st : St) (hr : RestOK st.inp)
+    (he : EndsOp cpp st.pre) : p3 M cpp g inner false d st = .ok st := by
   rw [p3.eq_1]
   simp only [Bool.false_eq_true, if_false]
   cases hi : st.inp with
@@ -310,11 +312,11 @@ theorem p3loop_stop (M : Nat) (cpp : Bool) (inner : Nat → St → R) (d : Nat) 
     | lb => simp [restOK] at this
 
 /-- compilePrecedence3 on a state whose compileTerm result is known and after which nothing continues -/
-theorem p3_of_term (M : Nat) (cpp : Bool) (inner : Nat → St → R) (d : Nat) (st st1 : St)
-    (ht : term d st = .ok st1) (hlen : st1.inp.length ≤ st.inp.length) (hr : RestOK st1.inp) (he : EndsOp cpp st1.pre) :
-    p3 M cpp inner true d st = .ok st1 := by
+theorem p3_of_term (M : Nat) (cpp : Bool) (g : Bool) (inner : Nat → St → R) (d : Nat) (st st1 : St)
+    (ht : term g d st = .ok st1) (hlen : st1.inp.length ≤ st.inp.length) (hr : RestOK st1.inp) (he : EndsOp cpp st1.pre) :
+    p3 M cpp g inner true d st = .ok st1 := by
   rw [p3.eq_1]
-  simp only [if_true, p2, ht, hlen, loop2_stop M cpp inner d st1 hr, Nat.le_refl, p3loop_stop M cpp inner d st1 hr he]
+  simp only [if_true, p2, ht, hlen, loop2_stop M cpp g inner d st1 hr, Nat.le_refl, p3loop_stop M cpp g inner d st1 hr he]
 
 theorem seek_next (st : St) (t : Tok) (r : List Tok) (p : Nat) (hi : st.inp = t :: r) (hp : st.pos + 1 = p) :
     st.seek p = { st with pre := t :: st.pre, inp := r } := by
@@ -335,15 +337,15 @@ theorem ctx_not_call (cpp : Bool) (pre : List Tok) (cur : List Tok) (hc : CtxOK 
 
 /-- compilePrecedence3 on `( b ) rest` when the parenthesis is no cast, the context is an operand context and
 compileExpression handles `b` -/
-theorem p3_paren (M : Nat) (cpp : Bool) (inner : Nat → St → R) (d : Nat) (pre b rest : List Tok) (stk stk' : List Entry)
+theorem p3_paren (M : Nat) (cpp : Bool) (g : Bool) (inner : Nat → St → R) (d : Nat) (pre b rest : List Tok) (stk stk' : List Entry)
     (a : Nat) (hb : Balanced b) (hcast : iscast cpp pre (b ++ Tok.rp :: rest) = false) (hc : CtxOK pre)
     (hin : inner d ⟨Tok.lp :: pre, b ++ Tok.rp :: rest, stk, a⟩ = .ok ⟨b.reverse ++ Tok.lp :: pre, Tok.rp :: rest, stk', a⟩)
     (hr : RestOK rest) (he : EndsOp cpp (Tok.rp :: (b.reverse ++ Tok.lp :: pre))) :
-    p3 M cpp inner true d ⟨pre, Tok.lp :: (b ++ Tok.rp :: rest), stk, a⟩ =
+    p3 M cpp g inner true d ⟨pre, Tok.lp :: (b ++ Tok.rp :: rest), stk, a⟩ =
       .ok ⟨Tok.rp :: (b.reverse ++ Tok.lp :: pre), rest, stk', a⟩ := by
   rw [p3.eq_1]
   simp only [if_true, p2]
-  have hterm : term d ⟨pre, Tok.lp :: (b ++ Tok.rp :: rest), stk, a⟩ = .ok ⟨pre, Tok.lp :: (b ++ Tok.rp :: rest), stk, a⟩ := by
+  have hterm : term g d ⟨pre, Tok.lp :: (b ++ Tok.rp :: rest), stk, a⟩ = .ok ⟨pre, Tok.lp :: (b ++ Tok.rp :: rest), stk, a⟩ := by
     unfold term; rfl
   rw [hterm]
   simp only [Nat.le_refl, if_true]
@@ -357,9 +359,9 @@ theorem p3_paren (M : Nat) (cpp : Bool) (inner : Nat → St → R) (d : Nat) (pr
     rw [seek_next _ Tok.rp rest _ rfl (by simp [St.pos]; omega)]
   rw [hseek]
   simp only [List.length_cons, List.length_append, show rest.length < b.length + (rest.length + 1) + 1 by omega, if_true]
-  rw [loop2_stop M cpp inner d _ hr]
+  rw [loop2_stop M cpp g inner d _ hr]
   simp only [show rest.length ≤ b.length + (rest.length + 1) + 1 by omega, if_true]
-  exact p3loop_stop M cpp inner d _ hr he
+  exact p3loop_stop M cpp g inner d _ hr he
 
 theorem opOK_spec {s : Wire.Str} (h : opOK s = true) :
     s ≠ ['?'] ∧ s ≠ [':'] ∧ s ≠ [';'] ∧ isIncDecStr s = false ∧ s ≠ ['.','.','.'] ∧ s ≠ ['{'] ∧ s ≠ ['}'] ∧ s ≠ [':',':'] ∧
@@ -503,7 +505,7 @@ end WF
 def innerN (L : Ladder) (cpp : Bool) (N : Nat) : Nat → St → R :=
   fun d' st' => if st'.inp.length < N then expr L cpp d' st' else .error .stuck
 
-def primN (L : Ladder) (cpp : Bool) (N : Nat) : Nat → St → R := p3 L.maxDepth cpp (innerN L cpp N) true
+def primN (L : Ladder) (cpp : Bool) (N : Nat) : Nat → St → R := p3 L.maxDepth cpp L.declVarGuard (innerN L cpp N) true
 
 theorem expr_eq (L : Ladder) (cpp : Bool) (d : Nat) (st : St) :
     expr L cpp d st =
@@ -591,7 +593,7 @@ theorem claim_var (L : Ladder) (cpp : Bool) (s : Wire.Str) : Claim L cpp (var s)
   rw [ladder_nil]
   simp only [K, primN, done, print, List.reverse_cons, List.reverse_nil, List.nil_append, List.singleton_append, rootOff, toAst, Nat.add_zero]
   apply p3_of_term
-  · exact term_var d pre s rest stk a hr hc hdecl
+  · exact term_var _ d pre s rest stk a hr hc hdecl
   · simp
   · exact hr
   · exact endsOp_print cpp (var s) rfl pre
@@ -601,7 +603,7 @@ theorem claim_num (L : Ladder) (cpp : Bool) (s : Wire.Str) : Claim L cpp (num s)
   rw [ladder_nil]
   simp only [K, primN, done, print, List.reverse_cons, List.reverse_nil, List.nil_append, List.singleton_append, rootOff, toAst, Nat.add_zero]
   apply p3_of_term
-  · exact term_num d pre s rest stk a hr
+  · exact term_num _ d pre s rest stk a hr
   · simp
   · exact hr
   · exact endsOp_print cpp (num s) rfl pre
@@ -661,7 +663,7 @@ theorem claim_paren (L : Ladder) (cpp : Bool) (e : PExpr) (hs : S1 e = true)
   have he : EndsOp cpp (Tok.rp :: ((print e).reverse ++ Tok.lp :: pre)) := by
     have := endsOp_print cpp (paren e) hs pre
     simpa [print] using this
-  rw [p3_paren L.maxDepth cpp (innerN L cpp N) d pre (print e) rest stk _ a (balanced_print e) hcast hc hin hr he]
+  rw [p3_paren L.maxDepth cpp L.declVarGuard (innerN L cpp N) d pre (print e) rest stk _ a (balanced_print e) hcast hc hin hr he]
   simp only [done, print, rootOff, toAst, List.reverse_cons, List.reverse_append, List.reverse_nil, List.nil_append,
     List.singleton_append, List.cons_append, List.append_assoc, List.length_cons]
   have : pre.length + 1 + e.rootOff = pre.length + (1 + e.rootOff) := by omega
@@ -1532,5 +1534,106 @@ theorem need_strip : ∀ e : PExpr, need (strip e) = need e := by
   | member a m ih => simp [strip, need, ih]
   | call0 f v => rfl
   | call f v a ih => simpa [strip, need] using ih
+
+/-- the ladder only looks at its start state through the first call of the operand parser -/
+theorem ladder_congr_first (M : Nat) (cpp : Bool) (prim : Nat → St → R) (d : Nat) (st st' : St)
+    (hp : ∀ r, prim d st' = .ok r → prim d st = .ok r) (hl : st'.inp.length ≤ st.inp.length) :
+    ∀ (ls : List Level) (r : St), ladder M cpp prim ls d st' = .ok r → ladder M cpp prim ls d st = .ok r := by
+  intro ls
+  induction ls with
+  | nil => intro r h; rw [ladder_nil] at h ⊢; exact hp r h
+  | cons lv below ih =>
+    intro r h
+    cases hk : lv.kind with
+    | left =>
+      rw [ladder_cons_left M cpp prim below hk] at h ⊢
+      cases hb : ladder M cpp prim below d st' with
+      | error e => rw [hb] at h; simp at h
+      | ok r1 => rw [hb] at h; rw [ih r1 hb]; exact h
+    | assignTernary =>
+      rw [ladder_cons_at M cpp prim below hk, assignTern.eq_1] at h ⊢
+      simp only [if_true] at h ⊢
+      cases hb : ladder M cpp prim below d st' with
+      | error e => rw [hb] at h; simp at h
+      | ok r1 =>
+        rw [hb] at h
+        rw [ih r1 hb]
+        simp only at h ⊢
+        by_cases hc : r1.inp.length ≤ st'.inp.length
+        · simp only [hc, if_true] at h
+          simp only [show r1.inp.length ≤ st.inp.length by omega, if_true]
+          exact h
+        · simp [hc] at h
+
+/-- when the operand parser is done and no level continues, the whole ladder is done -/
+theorem ladder_of_prim (L : Ladder) (cpp : Bool) (N : Nat) (d : Nat) (st st1 : St)
+    (hp : primN L cpp N d st = .ok st1) (hl : st1.inp.length ≤ st.inp.length) :
+    ∀ ls : List Level, (∀ lv ∈ ls, LvStop cpp lv st1.assign st1.inp) →
+      ladder L.maxDepth cpp (primN L cpp N) ls d st = .ok st1 := by
+  intro ls
+  induction ls with
+  | nil => intro _; rw [ladder_nil]; exact hp
+  | cons lv below ih =>
+    intro h
+    rw [descend _ _ _ below d st st1 (ih (fun x hx => h x (List.mem_cons_of_mem _ hx))) hl]
+    exact K_stop _ _ _ below d st1 (h lv (by simp))
+
+/-- what the model (and cppcheck) builds for `( a * b = c ) ;`: skipDecl jumps over `a *`, the tree is `=`(b, c) -/
+theorem declWitness_parse {L : Ladder} (hL : L.WF = true) (cpp : Bool)
+    (hg : Gram L true L.levels (bin ['='] (var ['b']) (var ['c'])) = true) (hM : 1 ≤ L.maxDepth) :
+    astOf L cpp (declWitness.print ++ [Tok.op [';']]) =
+      .ok ⟨declWitness.print.reverse, [Tok.op [';']], [⟨4, .node ['='] (.leaf ['b']) (.leaf ['c'])⟩], 0⟩ := by
+  have hW : declWitness.print ++ [Tok.op [';']] =
+      [Tok.lp, Tok.var ['a'], Tok.op ['*'], Tok.var ['b'], Tok.op ['='], Tok.var ['c'], Tok.rp, Tok.op [';']] := rfl
+  unfold astOf
+  have hnq : ∀ t ∈ [Tok.lp, Tok.var ['a'], Tok.op ['*'], Tok.var ['b'], Tok.op ['='], Tok.var ['c'], Tok.rp, Tok.op [';']], t ≠ Tok.op ['?'] := by decide
+  rw [hW, prep_flat _ hnq, prep_flat _ hnq]
+  unfold parse
+  simp only [show ([Tok.lp, Tok.var ['a'], Tok.op ['*'], Tok.var ['b'], Tok.op ['='], Tok.var ['c'], Tok.rp, Tok.op [';']]).all Tok.inAlphabet = true by decide, if_true]
+  rw [expr_cons L cpp 0 _ (by omega) (by simp)]
+  -- the inner compileExpression: `a * b = c` behind `(`
+  let e1 : PExpr := bin ['='] (var ['b']) (var ['c'])
+  let st0 : St := ⟨[Tok.lp], [Tok.var ['a'], Tok.op ['*'], Tok.var ['b'], Tok.op ['='], Tok.var ['c'], Tok.rp, Tok.op [';']], [], 0⟩
+  let st0' : St := ⟨[Tok.op ['*'], Tok.var ['a'], Tok.lp], [Tok.var ['b'], Tok.op ['='], Tok.var ['c'], Tok.rp, Tok.op [';']], [], 0⟩
+  have hstop : ∀ (t : Tok) (r : List Tok) (a : Nat), (t = Tok.rp ∨ t = Tok.op [';']) → ∀ lv ∈ L.levels, LvStop cpp lv a (t :: r) := by
+    intro t r a ht lv hm
+    rcases ht with rfl | rfl
+    · exact lvstop_nonop cpp lv a _ r (by simp)
+    · exact lvstop_other_op cpp lv [';'] r (wf_not_op hL hm (by decide)) (by decide) (by decide) a
+  have hclaim := main_claim hL cpp e1 rfl L.levels (Suffix.refl L) hg 7 0 0
+    [Tok.op ['*'], Tok.var ['a'], Tok.lp] [Tok.rp, Tok.op [';']] []
+    (by decide) (by simp [e1, need]; omega) (ctxOK_op _ _) (by simp) (by simp)
+    (fun t h => by simp only [List.head?_cons, Option.some.injEq] at h; subst h; rfl)
+    (fun lv hm => hstop _ _ 0 (Or.inl rfl) lv (tail_mem hm))
+    (fun lv below h _ => (hstop _ _ 0 (Or.inl rfl) lv (by rw [h]; simp)).noRA ‹_›)
+  rw [K_done L cpp 7 L.levels 0 _ (fun lv below h => hstop _ _ _ (Or.inl rfl) lv (by rw [h]; simp))] at hclaim
+  -- compileTerm jumps from `a` to `b` (skipDecl): from there on the two parses coincide
+  have hprim : ∀ r, primN L cpp 7 0 st0' = .ok r → primN L cpp 7 0 st0 = .ok r := by
+    intro r
+    have t0 : term false 0 st0 = .ok ⟨[Tok.var ['b'], Tok.op ['*'], Tok.var ['a'], Tok.lp], [Tok.op ['='], Tok.var ['c'], Tok.rp, Tok.op [';']], [⟨3, .leaf ['b']⟩], 0⟩ := by rfl
+    have t0' : term false 0 st0' = .ok ⟨[Tok.var ['b'], Tok.op ['*'], Tok.var ['a'], Tok.lp], [Tok.op ['='], Tok.var ['c'], Tok.rp, Tok.op [';']], [⟨3, .leaf ['b']⟩], 0⟩ := by rfl
+    unfold primN
+    rw [p3.eq_1, p3.eq_1 (st := st0)]
+    simp only [if_true, p2, t0, t0']
+    simp only [st0, st0', List.length_cons, List.length_nil, Nat.reduceAdd, Nat.reduceLeDiff, if_true]
+    cases loop2 L.maxDepth cpp (innerN L cpp 7) 0 _ with
+    | error e => intro h; simp at h
+    | ok st1 =>
+      simp only
+      by_cases hc : st1.inp.length ≤ 5
+      · simp only [hc, if_true, show st1.inp.length ≤ 7 by omega]; exact id
+      · simp [hc]
+  have hin : innerN L cpp 8 0 st0 = .ok (done e1 [Tok.op ['*'], Tok.var ['a'], Tok.lp] [Tok.rp, Tok.op [';']] [] 0) := by
+    simp only [innerN, st0, List.length_cons, List.length_nil]
+    rw [if_pos (by omega), expr_cons L cpp 0 _ (by omega) (by simp)]
+    exact ladder_congr_first _ cpp _ 0 st0 st0' hprim (by simp [st0, st0']) L.levels _ hclaim
+  have hp3 := p3_paren L.maxDepth cpp L.declVarGuard (innerN L cpp 8) 0 []
+    [Tok.var ['a'], Tok.op ['*'], Tok.var ['b'], Tok.op ['='], Tok.var ['c']] [Tok.op [';']] [] _ 0
+    (by rfl) (iscast_headOK cpp [] _ _ rfl) ⟨by simp, by simp⟩ hin
+    (fun t h => by simp only [List.head?_cons, Option.some.injEq] at h; subst h; rfl)
+    (by
+      have := endsOp_print cpp declWitness rfl []
+      simpa [declWitness, print] using this)
+  exact ladder_of_prim L cpp 8 0 _ _ hp3 (by simp) L.levels (fun lv hm => hstop _ _ _ (Or.inr rfl) lv hm)
 
 end Cppcheck.AstLadder
